@@ -80,6 +80,17 @@ theorem C08_bitpacked_column_roundtrip (vals : List Nat) (hv : ∀ v ∈ vals, v
 
 example : (0 :: bitpackedEnc [10, 20, 40]) = [0, 0x8a, 0x8a, 0x83, 0x83, 0x34] := by decide
 
+/-- the invariant of `LinearCodecEstimator`'s pass over the column, for the update step as the
+source has it now (`Gen.linearDevStep` is translated from `collect_after_line_estimation` on every
+run): starting from `(u64::MAX, 0)`, after the pass `min_deviation ≤ deviationᵢ ≤ max_deviation`
+for every row — the first row included. This is what makes every residual
+`deviationᵢ − min_deviation` fit `compute_num_bits(max_deviation − min_deviation)`. -/
+theorem C08_linear_estimator_invariant (devs : List Nat) :
+    ∀ d ∈ devs, (devBounds devs).1 ≤ d ∧ d ≤ (devBounds devs).2 :=
+  devBounds_spec devs
+
+example : devBounds [7, 3, 5] = (3, 7) ∧ devBounds [9] = (9, 9) := by decide
+
 /-- linear codec, in `BitVec 64`: exact for every column, every row and *every* estimation line
 (whatever `Line::train` returns): the stored offset is `deviationᵢ − min_deviation`, which lies
 in `[0, max_deviation − min_deviation]` and therefore fits the chosen width; the `HALF_SPACE`
@@ -345,6 +356,16 @@ theorem C08_range_rows_partial (s : Stats) (hg : s.gcd ≠ 0) (vals : List Nat)
   rcases hGuardOrHi with h | h
   · rw [h]; exact rangeRows_guarded_exact s hg vals hv lo hi
   · rw [rangeRowsWith_guard_irrelevant _ s _ lo hi h]; exact rangeRows_guarded_exact s hg vals hv lo hi
+
+/-- the source now has the guard (`Gen.RANGE_BELOW_MIN_GUARD = true`, re-extracted on every run; it was
+added by the fix for C08:range-below-min-returns-min-rows): the rows the bitpacked reader reports for
+any query range are exactly the rows holding a value in the range. Removing the guard breaks this
+theorem (and `C08_range_transform_counterexample` shows the witness). -/
+theorem C08_range_rows_exact (s : Stats) (hg : s.gcd ≠ 0) (vals : List Nat)
+    (hv : ∀ v ∈ vals, s.min ≤ v ∧ s.gcd ∣ v - s.min) (lo hi : Nat) :
+    rangeRowsWith Gen.RANGE_BELOW_MIN_GUARD s (vals.map (fun v => (v - s.min) / s.gcd)) lo hi
+      = (List.range vals.length).filter (fun i => decide (lo ≤ vals.getD i 0) && decide (vals.getD i 0 ≤ hi)) :=
+  C08_range_rows_partial s hg vals hv lo hi (Or.inl rfl)
 
 /-- with the guard `if *range.end() < stats.min_value { return None; }` the lookup is exact for every
 query range (this is the behaviour after the pending fix) -/
